@@ -17,7 +17,19 @@
 (*        kind "i"  attach_interval(duration class c)                      *)
 (*   duration classes  "s" = expired at every processing call (1 ns in the *)
 (*                     driver, which sleeps before every processing call), *)
-(*                     "l" = never expires within a run (1 h).             *)
+(*                     "l" = never expires within a run (1 h);             *)
+(*                     intervals only: "m" = a period P of 120 ms, written *)
+(*                     "M" once the driver has slept longer than 1.5 P     *)
+(*                     since the instant at which the previous processing  *)
+(*                     call examined the deadlines (actions Sleep /        *)
+(*                     SleepIn): at least one period boundary lies in      *)
+(*                     between, so the NEXT call must report the tick - in *)
+(*                     particular when the sleep happened inside a         *)
+(*                     callback of the previous call ("an event that       *)
+(*                     arrives while the wait set is processing is not     *)
+(*                     lost but reported by the next call") - unless the   *)
+(*                     rest of that call already reported it; a mid        *)
+(*                     interval that is not marked may fire (time passes). *)
 (*                                                                         *)
 (* A processing call (wait_and_process_once_with_timeout) is split into    *)
 (*   PBegin            the call is entered: the set of attachments that    *)
@@ -79,9 +91,13 @@ NoObs == [k |-> "-"]
 
 \* ---- what a processing call has to report ---------------------------------
 Must == {<<g, "ev">> : g \in {h \in G : att[h].k \in {"n", "d"} /\ pending[att[h].l]}}
-        \cup {<<g, "ev">> : g \in {h \in G : att[h].k = "i" /\ att[h].c = "s"}}
+        \cup {<<g, "ev">> : g \in {h \in G : att[h].k = "i" /\ att[h].c \in {"s", "M"}}}
         \cup {<<g, "dl">> : g \in {h \in G : att[h].k = "d" /\ att[h].c = "s" /\ ~pending[att[h].l]}}
 May  == {<<g, "dl">> : g \in {h \in G : att[h].k = "d" /\ att[h].c = "s" /\ pending[att[h].l]}}
+        \cup {<<g, "ev">> : g \in {h \in G : att[h].k = "i" /\ att[h].c = "m"}}
+\* the mid intervals the driver has slept over: due at the next examination of the deadlines
+MarkDue(a) == [g \in G |-> IF a[g].k = "i" /\ a[g].c = "m" THEN AttI("M") ELSE a[g]]
+ClearDue(a) == [g \in G |-> IF a[g].k = "i" /\ a[g].c = "M" THEN AttI("m") ELSE a[g]]
 
 \* ---- initial state / reset ---------------------------------------------------
 WSInit(c, sv, f) ==
@@ -151,13 +167,26 @@ Recreate(l) ==
     /\ obs' = NoObs
     /\ UNCHANGED <<svc, att, cap, fill, proc>>
 
+\* the driver sleeps longer than 1.5 periods of the mid class, outside of / inside a callback
+Sleep ==
+    /\ ~proc.on
+    /\ att' = MarkDue(att)
+    /\ obs' = NoObs
+    /\ UNCHANGED <<pending, svc, cap, fill, proc>>
+SleepIn ==
+    /\ proc.on /\ proc.ncb > 0
+    /\ att' = MarkDue(att)
+    /\ obs' = NoObs
+    /\ UNCHANGED <<pending, svc, cap, fill, proc>>
+
 \* ---- processing call -----------------------------------------------------------
 PBegin ==
     /\ ~proc.on
     /\ proc' = [on |-> TRUE, empty |-> Live(att) = {} /\ fill = 0, must |-> Must, may |-> May,
                 done |-> {}, ncb |-> 0, bad |-> FALSE]
     /\ obs' = NoObs
-    /\ UNCHANGED <<pending, svc, att, cap, fill>>
+    /\ att' = ClearDue(att)        \* the deadlines are examined now: a marked tick is owed by THIS call
+    /\ UNCHANGED <<pending, svc, cap, fill>>
 
 Cb(evs, dls) ==
     /\ proc.on
@@ -167,8 +196,11 @@ Cb(evs, dls) ==
                                   !.bad = @ \/ Cardinality(res) # 1]
           \* the driver drains the listener inside the callback that reports its event
           /\ pending' = [l \in L |-> IF l \in drained THEN FALSE ELSE pending[l]]
+    \* a tick that became due by a sleep inside an earlier callback of THIS call and is reported now is not owed
+    \* any more (an implementation may examine the deadlines before or after the descriptor callbacks)
+    /\ att' = [g \in G |-> IF g \in evs /\ att[g].k = "i" /\ att[g].c = "M" THEN AttI("m") ELSE att[g]]
     /\ obs' = NoObs
-    /\ UNCHANGED <<svc, att, cap, fill>>
+    /\ UNCHANGED <<svc, cap, fill>>
 
 NotifyIn(s) ==
     /\ proc.on
